@@ -21,7 +21,7 @@ from harness.pool import pmap
 
 PROP = "C01"
 ROUTES = ["ugrid", "topology", "mpas", "mpas_dual", "scrip", "exodus", "esmf", "geos", "icon", "geo", "verts"]
-INVS = ["MeshOK", "RoundTrip", "ExpectedStandard", "PermOK", "CarriedConsistent", "ExtrasRoundTrip", "EmitMesh", "EmitCase"]
+INVS = ["InputKept", "DecodeRepeatable", "MeshOK", "RoundTrip", "ExpectedStandard", "PermOK", "CarriedConsistent", "ExtrasRoundTrip", "EmitMesh", "EmitCase"]
 QUICK_MESHES = [1, 2, 3, 4, 5, 6, 8, 14, 18, 19, 20]
 ALL_MESHES = list(range(1, 22))
 MESHFILES = os.path.join(os.environ.get("VERIF_REPO", "/repo"), "test", "meshfiles")
@@ -48,10 +48,10 @@ SAMPLES = [
 ]
 
 
-def gen_cfg(meshes, routes):
+def gen_cfg(meshes, routes, mech="copies"):
     return (
-        "INIT Init\nNEXT Next\nCONSTANTS\n MeshSel = {%s}\n RouteSel = {%s}\n"
-        % (",".join(map(str, meshes)), ",".join('"%s"' % r for r in routes))
+        "INIT Init\nNEXT Next\nCONSTANTS\n MeshSel = {%s}\n RouteSel = {%s}\n Mech = \"%s\"\n"
+        % (",".join(map(str, meshes)), ",".join('"%s"' % r for r in routes), mech)
         + "".join("INVARIANT %s\n" % i for i in INVS)
         + "CHECK_DEADLOCK FALSE\n"
     )
@@ -67,9 +67,21 @@ def generate(ctx, meshes, routes=ROUTES):
     )
     ms, cases = X.parse_prints(r.prints, r.out)
     roots = len({(c["mi"], c["route"]) for c in cases})
-    if len(ms) != len(meshes) or len(ms) + roots + len(cases) != r.distinct or not cases:
-        raise Machinery("Dialects: %d meshes + %d roots + %d cases parsed, TLC reports %d states" % (len(ms), roots, len(cases), r.distinct))
+    steps = sum(len(c["plan"]) for c in cases)  # the Decode ; Decode ... states of every source
+    if len(ms) != len(meshes) or len(ms) + roots + len(cases) + steps != r.distinct or not cases:
+        raise Machinery("Dialects: %d meshes + %d roots + %d cases + %d decode steps parsed, TLC reports %d states" % (len(ms), roots, len(cases), steps, r.distinct))
     return ms, cases
+
+
+def mechanism_demo(ctx):
+    """The specification distinguishes the two mechanisms: a decoder that converts platform-integer tables in
+    place (Mech = "aliases") must violate InputKept / DecodeRepeatable in the model - otherwise the invariants
+    that bind the code would be vacuous."""
+    cfg = gen_cfg([2], ["mpas"], mech="aliases").replace("INVARIANT EmitMesh\n", "").replace("INVARIANT EmitCase\n", "")
+    r = ctx.tlc("Dialects", cfg, what="Mech = aliases: in-place decoding of int64 tables must break InputKept", workers=2, timeout=600, count=False)
+    if r.violated not in ("InputKept", "DecodeRepeatable"):
+        raise Machinery("the aliasing mechanism does not violate InputKept in the model (violated=%s ok=%s)" % (r.violated, r.ok))
+    ctx.note("aliasing_mechanism_refuted_by", r.violated)
 
 
 def sig_of(case, clause):
@@ -115,28 +127,36 @@ def run(ctx):
     only = os.environ.get("C01_ROUTES")
     routes = only.split(",") if only else ROUTES
     ms, cases = generate(ctx, meshes, routes)
+    mechanism_demo(ctx)
     ctx.exhaustive = True
     ctx.rule = (
         "TLC enumerates mesh x route x dialect (Dialects.tla), proves Decode(StoredSrc) = Expected and standard form for "
         "each, and emits the stored tables; each is materialised and opened through ux.open_grid / Grid.from_dataset / "
         "from_file / from_topology / from_face_vertices; JudgeReaders.tla judges FaceCount, FacesMatch (corner positions, "
-        "cyclic), StdDtype, StdFill, PadAtEnd, InRange, LonRange, LatRange, NodesKept, Carried*. Non-trivial = distinct "
+        "cyclic), StdDtype, StdFill, PadAtEnd, InRange, LonRange, LatRange, NodesKept, Carried*; every in-memory input "
+        "is decoded again (and again with the other MPAS grid) as the Decode;Decode machine of Dialects.tla prescribes, "
+        "fingerprinted before and after: InputKept, DecodeRepeatable. Non-trivial = distinct "
         "(mesh, route, dialect) whose mesh has >= 2 faces."
     )
     # a rotating tenth of the NetCDF routes goes through a file on disk (all of them in the thorough tier)
     off = rng.randrange(10)
     work = []
+    FILE_ROUTES = ("ugrid", "mpas", "mpas_dual", "scrip", "exodus", "esmf", "geos", "icon")
     for k, c in enumerate(cases):
         c["k"] = k
-        disk = thorough or ((k + off) % 10 == 0)
-        work.append((c, ms[c["mi"]], ctx.work, disk))
+        if thorough and c["route"] in FILE_ROUTES:
+            # both ways: the in-memory object (input kept, decoded repeatedly) and the file on disk
+            work.append((c, ms[c["mi"]], ctx.work, False))
+            work.append((dict(c, id=c["id"] + "@disk"), ms[c["mi"]], ctx.work, True))
+        else:
+            work.append((c, ms[c["mi"]], ctx.work, (k + off) % 10 == 0))
     import time
 
     t0 = time.time()
     recs = pmap(X.run_case, work)
     ctx.note("replay_wall_s", round(time.time() - t0, 1))
-    by_id = {c["id"]: c for c in cases}
-    if len(by_id) != len(cases):
+    by_id = {w[0]["id"]: w[0] for w in work}
+    if len(by_id) != len(work):
         raise Machinery("case ids are not unique")
     skipped = [r for r in recs if "skip" in r]
     ctx.note("not_representable_by_writer", {"n": len(skipped), "e.g.": [r["id"] for r in skipped[:3]]})
@@ -154,10 +174,17 @@ def run(ctx):
     for r in errs:
         c = by_id[r["id"]]
         ctx.violation(r["id"], "Raises", detail=r["error"], sig=sig_of(c, "Raises"), replay={"case": c, "mesh": ms[c["mi"]]})
+    rec_by_id = {r["id"]: r for r in recs}
+    for r in good:
+        if "error_later" in r:  # the first decoding gave a Grid, a later one of the same input raised
+            c = by_id[r["id"]]
+            failed.setdefault(r["id"], [])
+            ctx.violation(r["id"], "RaisesOnRepeat", detail=r["error_later"], sig=sig_of(c, "RaisesOnRepeat"), replay={"case": c, "mesh": ms[c["mi"]]})
     for rid, cl in sorted(failed.items()):
         c = by_id[rid]
         for clause in cl:
-            ctx.violation(rid, clause, detail={"failed": cl}, sig=sig_of(c, clause), replay={"case": c, "mesh": ms[c["mi"]]})
+            ctx.violation(rid, clause, detail={"failed": cl, "changed": rec_by_id[rid].get("changed"), "kept": rec_by_id[rid].get("kept")},
+                          sig=sig_of(c, clause), replay={"case": c, "mesh": ms[c["mi"]]})
     summ = {}
     for rid, cl in failed.items():
         for clause in cl:
@@ -169,7 +196,8 @@ def run(ctx):
     ctx.note("failed_clauses_per_route", summ)
     if os.environ.get("C01_DUMP"):
         with open(os.environ["C01_DUMP"], "w") as fh:
-            json.dump({"failed": failed, "errors": {r["id"]: r["error"] for r in errs}, "sigs": {c["id"]: sig_of(c, "") for c in cases}}, fh)
+            json.dump({"failed": failed, "errors": {r["id"]: r["error"] for r in errs}, "later": {r["id"]: r["error_later"] for r in good if "error_later" in r},
+                       "changed": {r["id"]: r.get("changed") for r in good if r.get("changed")}, "sigs": {i: sig_of(c, "") for i, c in by_id.items()}}, fh)
     if drift:
         print("MODEL-DRIFT: %d sources are presented with the corner cycle rotated (same cycle), e.g. %s" % (len(drift), sorted(drift)[:2]))
     ctx.note("corner_rotation_records", len(drift))
